@@ -28,7 +28,7 @@ CFG = {
             "from A's own vertices / edge midpoints / edges (so containment is frequent): intersects(A,B), intersects(B,A), contains(A,B), is_within(A,B); "
             "1/3: coordinate_position(G, p) with p a vertex, an edge midpoint or a half-grid point. Three-way comparison per case: implementation, "
             "model of the implementation (one Lean term per Rust impl body, composed like the trait dispatch), and the specification (translated mask on "
-            "the executable DE-9IM spec / exact point location). Invalid operands are SKIPped. distinct by input text; bbox-disjoint pairs are tagged triv.",
+            "the executable DE-9IM spec / exact point location). Invalid operands are SKIPped. distinct by input text; bbox-disjoint pairs are tagged triv. Rounds 9-10: polygons with disjoint holes whose boxes overlap, island-in-a-lake multipolygons, plates with a non-convex (U-shaped) hole against partners whose vertices all lie in the hole (tongue_pair), 1 case in 25 each.",
     "trusted_base": [
         "spec adequacy S1/S2 as for C01 (the DE-9IM spec and exact point location are definitions, not derived from point-set topology)",
         "translator/rs2lean.py + rsexpr.py (regenerate the mask predicates, enum declaration orders, the Rect/Line kernels and — statement fragment — "
